@@ -288,7 +288,7 @@ def obligations(tier: str):
             if var:
                 cfg["variant"] = var
             tag = fxn + ("_" + var.replace("grammar_", "") if var else "") + "_" + sname
-            obs.append(Ob("min_depth_lower_bound", dict(cfg, extra=2 if T else 1), name=f"mindepth_forall_{tag}", timeout=600 if T else 100))
+            obs.append(Ob("min_depth_lower_bound", dict(cfg, extra=2 if T and tag != "f4_Seq" else 1), name=f"mindepth_forall_{tag}", timeout=600 if T else 100))
             obs.append(Ob("min_depth_witness", dict(cfg), name=f"mindepth_exists_{tag}", expect="refute", timeout=100, twin=False))
     rec = [("f1", None, "Expr", True), ("f1", None, "Leaf", False), ("f4", None, "Stmt", True), ("f4", None, "Num", False), ("f7", "grammar_tuple", "Root", True), ("f7", "grammar_tuple2", "ViaTuple2", True), ("f7", "grammar_mutual", "Other", True), ("f7", "grammar_union", "Root", False), ("f3", None, "Root", False)]
     for fxn, var, sname, is_rec in rec:
